@@ -467,6 +467,38 @@ func main() {
 			r.Fail("C11/Reset/unsupported-value-does-not-panic", "int", nil)
 		}
 	}
+	// A message STRUCT VALUE (not a pointer) is not a message: Unknown / documented error, and classifying it must not
+	// change what the pointer type is classified as afterwards - nor the other way round (the cache is emptied between
+	// the two orders, so both "value first" and "pointer first" are seen with a cold cache).
+	for _, sj := range reps {
+		ptr := sj.mk()
+		rv := reflect.ValueOf(ptr)
+		if rv.Kind() != reflect.Ptr || rv.Elem().Kind() != reflect.Struct {
+			continue
+		}
+		val := rv.Elem().Interface()
+		want := csproto.MsgType(ptr)
+		for order := 0; order < 2; order++ {
+			vsync.ResetMaps()
+			var gotVal, gotPtr csproto.MessageType
+			var cl any
+			p := guard(func() {
+				if order == 0 {
+					gotVal = csproto.MsgType(val)
+					gotPtr = csproto.MsgType(ptr)
+				} else {
+					gotPtr = csproto.MsgType(ptr)
+					gotVal = csproto.MsgType(val)
+				}
+				cl = csproto.Clone(val)
+			})
+			evals++
+			if p != "" || gotVal != csproto.MessageTypeUnknown || gotPtr != want || cl != nil {
+				r.Fail("C11/struct-value-vs-pointer/"+kind(sj), fmt.Sprintf("%s order=%d", sj.name, order), map[string]any{"MsgType(value)": gotVal, "MsgType(pointer)": gotPtr, "want_pointer": want, "Clone(value)_nil": cl == nil, "panic": p})
+			}
+		}
+	}
+	vsync.ResetMaps()
 	// a value that renders itself (encoding.TextMarshaler): its own text and its own error come back unchanged
 	for _, ts := range []*textStub{{text: "self: rendered"}, {text: ""}, {err: errors.New("cannot render")}} {
 		var txt string
